@@ -4,6 +4,7 @@ import (
 	"github.com/LemoFoundationLtd/lemochain-core/chain/deputynode"
 	"github.com/LemoFoundationLtd/lemochain-core/common"
 	"github.com/LemoFoundationLtd/lemochain-core/common/crypto"
+	"sync"
 )
 
 // cache confirm to save CPU. This confirm may not be used at last
@@ -12,8 +13,15 @@ var sigCache struct {
 	Sig  []byte
 }
 
+// SignBlock is called with the chain lock (insert block, mine block) and without it (batch confirm of stable blocks in its own
+// goroutine), so the cache needs its own lock
+var sigCacheLock sync.Mutex
+
 // SignBlock sign a block hash by node key
 func SignBlock(blockHash common.Hash) ([]byte, error) {
+	sigCacheLock.Lock()
+	defer sigCacheLock.Unlock()
+
 	if sigCache.Hash == blockHash {
 		return sigCache.Sig, nil
 	}
